@@ -97,6 +97,16 @@ def line_pred(case):
             raise RuntimeError("oracle error: periodic image")
     path = "cu" if basis.cubic_uniform else "nu"
     err = np.abs(got - want)
+    if case["mode"] == "periodic":
+        # a foot that is congruent to the domain boundary itself has two periodic images in the closed interval
+        # (vMin and vMax); the statement does not say which one is meant, so either value is accepted there
+        img = info["foot_used"]
+        edge = info["outside"] & ((img == vpts[0]) | (img == vpts[-1]))
+        if edge.any():
+            other = np.where(img == vpts[0], vpts[-1], vpts[0])
+            alt = ref.eval(info["coeffs"], other[edge]) if "coeffs" in info else None
+            if alt is not None:
+                err[edge] = np.minimum(err[edge], np.abs(got[edge] - alt))
     if not (err <= tol).all():
         i = int(np.argmax(err))
         raise Violation("C11:%s:%s:%s" % (path, case["mode"], "outside" if info["outside"][i] else "inside"),
